@@ -261,6 +261,7 @@ Proof.
   - exfalso. apply (H r). exact Hr.
   - split; [exists s; exact Hs | exact Hd].
 Qed.
+Print Assumptions hincrby_failure.
 
 (* which error: wrong text vs. overflow *)
 Theorem hincrby_errors now d k f n delta cur t :
@@ -583,6 +584,7 @@ Proof.
   - split; intros [H1 H2]; [exfalso; apply H2; discriminate | discriminate].
   - split; intros [H1 H2]; split; auto.
 Qed.
+Print Assumptions new_fields_spec.
 
 (* HSETNX on an existing field changes nothing *)
 Lemma hset_all_nx_zero h ps h' :
@@ -832,6 +834,7 @@ Proof.
   intros Hne Hl. apply get_hash_missing in Hl. unfold cmd_hdel.
   destruct fs as [|f0 fs0]; [congruence|]. rewrite Hl. reflexivity.
 Qed.
+Print Assumptions hdel_missing.
 
 Example hdel_ex :
   let d := ex_db 7 in
@@ -988,6 +991,7 @@ Proof.
   - intros c cnt Hc. rewrite Hc. reflexivity.
   - intros c cnt w Hc Hw. rewrite Hc, Hw. reflexivity.
 Qed.
+Print Assumptions hrandfield_missing.
 
 Example hrandfield_ex :
   let d := ex_db 7 in
@@ -1160,3 +1164,4 @@ Proof.
   intros Hwf Hg. apply get_hash_some in Hg. destruct Hg as [e [Hl [Hv _]]].
   apply lookup_aget in Hl. exact (Hwf k e h Hl Hv).
 Qed.
+Print Assumptions hash_never_empty.
